@@ -283,6 +283,21 @@ example : decodeDomainType (.bytes [0, 0, 48, 18, 9, 9]) = .ok [0, 0, 48, 18] :=
 example : decodeDomainType (.bytes [1, 2, 3]) = .err ∧ decodeDomainTypeOld (.bytes [1, 2, 3]) = .panic := by decide
 example : decodeSubnets (.bytes (5 :: List.replicate 15 0)) = .ok ([1, 0, 1] ++ List.replicate 125 0) := by decide
 
+/-! ## metric labels (monitoring/metricsreporter; repaired by 14cd45e91)
+
+The validator labels Prometheus vectors with the round, the QBFT / SSV message type and the number of signers of a message
+BEFORE the message is checked; a vector keeps one series per distinct label value for ever. -/
+
+/-- tie: every label taken from a peer's message goes through a helper with a bounded range — rounds above 16 and signer
+    counts above 13 share one label, unknown message types share one label; no number is formatted at the call sites -/
+theorem C08_tie_metric_labels_bounded :
+    Gen.calls_val_metrics_MessageRejected = ["roundLabel"] ∧ Gen.calls_val_metrics_MessageIgnored = ["roundLabel"] ∧
+    Gen.calls_val_metrics_MessageAccepted = ["roundLabel"] ∧ Gen.calls_val_metrics_SSVMessageType = ["ssvMsgTypeLabel"] ∧
+    Gen.calls_val_metrics_ConsensusMsgType = ["qbftMsgTypeLabel", "signersLabel"] ∧
+    Gen.has_val_roundLabel = [true, true] ∧ Gen.has_val_signersLabel = [true, true] ∧
+    Gen.has_val_ssvMsgTypeLabel = [true] ∧ Gen.has_val_qbftMsgTypeLabel = [true] ∧
+    Gen.val_maxRoundLabel = 16 ∧ Gen.val_maxSignersLabel = 13 := by decide
+
 /-! ## size limits precede decoding -/
 
 /-- an oversize message gets the same verdict whatever the decoder would have produced: the size guard decides first -/
